@@ -717,7 +717,9 @@ def rule_subsample_kernels(repo, col):
     tas = local_assignments(t)
     invs = {nm for nm, vals in tas.items() for v, st in vals
             if isinstance(v, ast.Call) and (call_name(v) or '').endswith(
-                '_invert_axis') and v.args and dotted(v.args[0]) == 'axis'}
+                '_invert_axis') and dotted(
+                    (v.args[0] if v.args else kwarg(v, 'axis')) or
+                    ast.Constant(None)) == 'axis'}
     if len(fl) == 2 and all(axs):
         ok = axs[0] == 'axis' and axs[1] in invs
         col.check(ok, 'AX-IDAPI', TABLE, 'Table.subsample',
@@ -1777,14 +1779,20 @@ def rule_or_bypass(repo, col):
         if hit is not None:
             from .consteval import ConstEval, UNKNOWN as _UNK
             guard = None
+            negated = False
             for n in ast.walk(init):
-                if isinstance(n, ast.If) and any(x is hit for b_ in n.body
-                                                 for x in ast.walk(b_)) and \
-                        not (isinstance(n.test, ast.Compare) and
-                             dotted(n.test.left) == param):
-                    guard = n
+                if isinstance(n, ast.If) and not (
+                        isinstance(n.test, ast.Compare) and
+                        dotted(n.test.left) == param):
+                    if any(x is hit for b_ in n.body for x in ast.walk(b_)):
+                        guard, negated = n, False
+                    elif any(x is hit for b_ in n.orelse
+                             for x in ast.walk(b_)):
+                        guard, negated = n, True
             if guard is not None:
                 v = ConstEval(repo).ev(guard.test, TABLE, {param: []})
+                if v is not _UNK and negated:
+                    v = not v
                 if v is _UNK:
                     col.unknown(rule, TABLE, 'Table.__init__',
                                 'empty-sequence:%s' % param, guard.test,
@@ -1797,7 +1805,8 @@ def rule_or_bypass(repo, col):
                               'with no entries at all (wrong length for a '
                               'non-empty axis) is silently turned into None '
                               'instead of being refused'
-                              % unparse(guard.test, 60))
+                              % (('not (%s)' if negated else '%s')
+                                 % unparse(guard.test, 60)))
         col.check(hit is None, rule, TABLE, 'Table.__init__',
                   'all-falsy:%s' % param, hit or init,
                   'supplied metadata is always what is checked',
